@@ -818,6 +818,24 @@ impl Router {
                                 reason: PubRecReason::Success,
                             };
 
+                            // a topic alias is resolved (or established) when the publish is
+                            // received, not when it is released by the pubrel
+                            let (mut publish, mut properties) = (publish, properties);
+                            let topic_alias = properties.as_mut().and_then(|p| p.topic_alias.take());
+                            if let Some(alias) = topic_alias {
+                                let connection = self.connections.get_mut(id).unwrap();
+                                if let Err(e) =
+                                    validate_and_set_topic_alias(&mut publish, connection, alias)
+                                {
+                                    error!(reason = ?e, "Invalid topic alias");
+                                    disconnect = true;
+                                    if let RouterError::Disconnect(code) = e {
+                                        disconnect_reason = Some(code)
+                                    }
+                                    break;
+                                }
+                            }
+
                             let ackslog = self.ackslog.get_mut(id).unwrap();
                             ackslog.pubrec(publish, properties, pubrec);
                             force_ack = true;
